@@ -254,6 +254,7 @@ def wrap_body(case, mods, State):
             raise Unsupported('harness error while building the inputs: %r' % (e,))
         State.I = I
         State.nassume = len(core.ST.path.pc)
+        core.ST.path.nassume = State.nassume
         with core.patched(*mods):
             return case.run(I)
     return body
